@@ -926,6 +926,33 @@ def gen_views(repo):
         return '[' + (';' + NL).join(t for _, t in sorted(sites)) + ']'
     G.define('gen_view1d_write_sites', '(f s i j : Z)', 'list (nat * bool * Z * Z)', view1d_write_sites,
              V1 + ': non-const 1-D view class, every access site of the parent (0 vector address &_data[e], 1 data_setter, 3 scalar _data[e]; unit = inside `_seq._step == 1`)')
+    # ---- noalias(): the aliasing branch of every assignment operator of every view class
+    def noalias_census():
+        import glob
+        OPC = {'=': 0, '+=': 1, '-=': 2, '*=': 3, '/=': 4}
+        items = []
+        for fi, f in enumerate(sorted(glob.glob(os.path.join(repo, 'Fastor', 'expressions', 'views', '*.h')))):
+            txt = strip_comments(open(f).read())
+            for m in re.finditer(r'void\s+operator\s*(=|\+=|-=|\*=|/=)\s*\(([^)]*)\)\s*\{', txt):
+                i = m.end() - 1; j = match_close(txt, i); body = txt[i + 1:j]
+                if '_does_alias' not in body: continue
+                k = body.find('if (_does_alias)')
+                if k < 0: raise XErr('%s: operator%s mentions _does_alias outside an `if (_does_alias)`' % (os.path.basename(f), m.group(1)))
+                b0 = body.index('{', k); b1 = match_close(body, b0); blk = ' '.join(body[b0 + 1:b1].split())
+                pre = [l.strip() for l in body[:k].split('\n') if l.strip()]
+                guard = bool(pre) and pre[-1] == '#if !(FASTOR_NO_ALIAS)'
+                arg = re.findall(r'(\w+)\s*$', m.group(2).strip())
+                mA = re.fullmatch(r'_does_alias = false; auto tmp_this_tensor = get_tensor\(\); auto tmp = [\w:]+<.*>\(tmp_this_tensor.*?\); tmp = (\w+); this->operator(=|\+=|-=|\*=|/=)\(tmp\); return;', blk)
+                mB = re.fullmatch(r'(?:_does_alias = false; )?const result_type tmp\((\w+)\); this->operator(=|\+=|-=|\*=|/=)\(tmp\); return;', blk)
+                mm = mA or mB
+                if not mm: raise XErr('%s: aliasing branch of operator%s has another shape: %s' % (os.path.basename(f), m.group(1), blk[:120]))
+                if not arg or mm.group(1) != arg[0]: raise XErr('%s: aliasing branch of operator%s stages %s, not its argument' % (os.path.basename(f), m.group(1), mm.group(1)))
+                items.append('(%d, %d, %d, %s)' % (fi, OPC[m.group(1)], OPC[mm.group(2)], 'true' if guard else 'false'))
+        if len(items) < 60: raise XErr('only %d aliasing branches found' % len(items))
+        return '[' + '; '.join(items) + ']%nat'
+    G.define('gen_noalias_branches', '', 'list (nat * nat * nat * bool)', noalias_census,
+             'expressions/views/*.h: the `if (_does_alias)` branch of every assignment operator: (file, operator of the overload, operator applied to the staged temporary, '
+             'guarded by `#if !(FASTOR_NO_ALIAS)`); the branch stages its own argument into a copy (evaluated on the untouched original) and applies the operator to it')
     # ---- tensor/BlockIndexing.h: flat indices precomputed by the index-tensor overloads of operator()
     BI = 'tensor/BlockIndexing.h'
     batoms = [(r'_it0\s*\(\s*i\s*\)', 'a', 'n'), (r'_it1\s*\(\s*j\s*\)', 'b', 'n'), (r'_it0\s*\(\s*j\s*\)', 'b', 'n'),
